@@ -100,4 +100,1233 @@ theorem exact_global_first_wins (dem : Bytes → Bytes) (vs : List Version) (nam
   unfold findMatch
   rw [h]; rfl
 
+/-! ## `find_match_spec_partial`: a decidable class of scripts on which wild agrees with GNU ld
+
+Differences between wild and GNU ld (see the witnesses above and scratch/c15c32/REPORT.md):
+1. wild consults `extern "C++"` literals after all C literals of the node (class: no C++ entries);
+2. wild's `analyze_glob_pattern` treats an unescaped `]` as a wildcard character, GNU's `realsymbol`
+   only `?`, `*`, `[` (class: a token GNU reads as a literal has no `]`);
+3. wild has two wildcard tiers (`*`-free before `*`) scanned last-node-first with `global:` before
+   `local:` inside the node; GNU has one tier, all `global:` sections before all `local:` sections
+   (class: (W) and (S) of `GnuAgree`).
+-/
+open Wild.GnuVersionSpec (realsymbol scan Scan Acc litMatch wildMatch starMatch symFor)
+
+/-! ### Token classification: `realsymbol` vs `analyze_glob_pattern` -/
+
+theorem analyzeLoop_exact (t : PatternType) (p : List UInt8) (h : analyzeLoop t p = .exact) :
+    t = .exact ∧ bBackslash ∉ p := by
+  fun_induction analyzeLoop t p with
+  | case1 t => simp_all
+  | case2 t c t' hc =>
+    exfalso; by_cases ht : t = .exact <;> simp_all +zetaDelta
+  | case3 t c t' x rest' hc ih =>
+    exfalso
+    have := (ih h).1
+    by_cases ht : t = .exact <;> simp_all +zetaDelta
+  | case4 => simp_all
+  | case5 t c rest h1 h2 h3 ih => have := (ih h).1; simp_all
+  | case6 t c rest h1 h2 h3 ih =>
+    have := ih h
+    simp_all
+    intro hh; exact h1 hh.symm
+
+theorem realsymbol_unescape (p l : List UInt8) (h : realsymbol p = some l) : l = unescape p := by
+  fun_induction realsymbol p generalizing l with
+  | case1 => simp_all [unescape]
+  | case2 c rest ih =>
+    simp only [Option.map_eq_some_iff] at h
+    obtain ⟨a, ha, rfl⟩ := h
+    rw [ih a ha]; simp [unescape, bBackslash]
+  | case3 c rest hx hm => simp_all
+  | case4 c rest hx hm ih =>
+    simp only [Option.map_eq_some_iff] at h
+    obtain ⟨a, ha, rfl⟩ := h
+    rw [ih a ha]
+    by_cases hc : c = bBackslash
+    · cases rest with
+      | nil => simp [unescape, hc]
+      | cons d r => exact absurd rfl (hx d r hc)
+    · conv => rhs; unfold unescape
+      simp [hc]
+
+
+theorem analyzeLoop_nonStar (t : PatternType) (p : List UInt8) (ht : t = .nonStar) :
+    analyzeLoop t p = .star ∨ analyzeLoop t p = .nonStar := by
+  fun_induction analyzeLoop t p <;> simp_all +zetaDelta
+
+theorem unescape_id (p : List UInt8) (h : bBackslash ∉ p) : unescape p = p := by
+  fun_induction unescape p <;> simp_all
+
+def nonMeta (c : UInt8) : Bool := c != bStar && c != bQuest && c != bBackslash && c != bOpen && c != bClose
+
+theorem analyzeLoop_nonMeta (t : PatternType) (p : List UInt8) (h : p.all nonMeta = true) : analyzeLoop t p = t := by
+  induction p with
+  | nil => rfl
+  | cons c r ih =>
+    simp only [List.all_cons, Bool.and_eq_true, nonMeta, bne_iff_ne] at h
+    obtain ⟨⟨⟨⟨⟨h1, h2⟩, h3⟩, h4⟩, h5⟩, hr⟩ := h
+    unfold analyzeLoop
+    simp [h1, h2, h3, h4, h5, ih hr]
+
+theorem analyze_eq (p : List UInt8) : analyze p = analyzeLoop .exact p := by
+  unfold analyze
+  split
+  · rename_i h; exact (analyzeLoop_nonMeta _ _ h).symm
+  · rfl
+
+theorem realsymbol_none_loop (p : List UInt8) (h : realsymbol p = none) (t : PatternType) :
+    analyzeLoop t p = .star ∨ analyzeLoop t p = .nonStar := by
+  fun_induction realsymbol p generalizing t with
+  | case1 => simp at h
+  | case2 c rest ih =>
+    simp only [Option.map_eq_none_iff] at h
+    unfold analyzeLoop
+    simp only [bBackslash, beq_self_eq_true, if_true]
+    exact ih h _
+  | case3 c rest hx hm =>
+    simp only [Bool.or_eq_true, beq_iff_eq] at hm
+    have hns := analyzeLoop_nonStar .nonStar rest rfl
+    rcases hm with (rfl | rfl) | rfl
+    · unfold analyzeLoop; simpa [bBackslash, bStar, bOpen, bClose, bQuest] using hns
+    · unfold analyzeLoop; simp [bBackslash, bStar]
+    · unfold analyzeLoop; simpa [bBackslash, bStar, bOpen, bClose, bQuest] using hns
+  | case4 c rest hx hm ih =>
+    simp only [Option.map_eq_none_iff] at h
+    simp only [Bool.or_eq_true, beq_iff_eq, not_or] at hm
+    obtain ⟨⟨h1, h2⟩, h3⟩ := hm
+    by_cases hb : c = bBackslash
+    · cases rest with
+      | nil => simp [realsymbol] at h
+      | cons d r => exact absurd rfl (hx d r hb)
+    · by_cases hcl : c = bClose
+      · have hns := analyzeLoop_nonStar .nonStar rest rfl
+        unfold analyzeLoop
+        subst hcl
+        simpa [bBackslash, bStar, bOpen, bClose, bQuest] using hns
+      · unfold analyzeLoop
+        have := ih h t
+        simp only [bBackslash, bStar, bOpen, bClose, bQuest] at hb hcl ⊢
+        simpa [hb, hcl, h1, h2, h3] using this
+
+theorem realsymbol_none_analyze (p : List UInt8) (h : realsymbol p = none) :
+    analyze p = .star ∨ analyze p = .nonStar := by
+  rw [analyze_eq]; exact realsymbol_none_loop p h _
+
+theorem realsymbol_some_loop (p : List UInt8) (h : (realsymbol p).isSome = true) (hcl : bClose ∉ p)
+    (t : PatternType) (ht : t = .exact ∨ t = .escapedExact) :
+    analyzeLoop t p = .exact ∨ analyzeLoop t p = .escapedExact := by
+  fun_induction realsymbol p generalizing t with
+  | case1 => simpa [analyzeLoop] using ht
+  | case2 c rest ih =>
+    simp only [Option.isSome_map] at h
+    unfold analyzeLoop
+    simp only [bBackslash, beq_self_eq_true, if_true]
+    apply ih h (by simp_all)
+    rcases ht with rfl | rfl <;> simp
+  | case3 c rest hx hm => simp at h
+  | case4 c rest hx hm ih =>
+    simp only [Option.isSome_map] at h
+    simp only [Bool.or_eq_true, beq_iff_eq, not_or] at hm
+    obtain ⟨⟨h1, h2⟩, h3⟩ := hm
+    have hc4 : c ≠ bClose := by intro hh; apply hcl; simp [hh]
+    have hr : bClose ∉ rest := by intro hh; apply hcl; simp [hh]
+    by_cases hb : c = bBackslash
+    · cases rest with
+      | nil =>
+        unfold analyzeLoop
+        rcases ht with rfl | rfl <;> simp [hb]
+      | cons d r => exact absurd rfl (hx d r hb)
+    · unfold analyzeLoop
+      have := ih h hr t ht
+      simp only [bBackslash, bStar, bOpen, bClose, bQuest] at hb hc4 ⊢
+      simpa [hb, hc4, h1, h2, h3] using this
+
+/-- Token-level agreement, literal case. -/
+theorem realsymbol_some_analyze (p l : List UInt8) (h : realsymbol p = some l) (hcl : bClose ∉ p) :
+    (analyze p = .exact ∧ p = l) ∨ (analyze p = .escapedExact ∧ unescape p = l) := by
+  have hl := realsymbol_unescape p l h
+  rw [analyze_eq]
+  rcases realsymbol_some_loop p (by simp [h]) hcl .exact (Or.inl rfl) with h1 | h1
+  · left; refine ⟨h1, ?_⟩
+    rw [hl, unescape_id p (analyzeLoop_exact _ _ h1).2]
+  · right; exact ⟨h1, hl.symm⟩
+
+/-! ### What an accepted script builds -/
+
+/-- Total version of `classify` (the dummy is never used for accepted scripts). -/
+def classifyD (e : Entry) : SymbolMatcher :=
+  match classify e.quoted e.token with
+  | .ok m => m
+  | .error _ => .matchesAll
+
+def bodyStep (b : VersionBody) (e : Entry) : VersionBody := b.push e (classifyD e)
+def bodyD (es : List Entry) : VersionBody := es.foldl bodyStep {}
+def verD (n : Node) : Version := { name := n.name, parentIndex := n.parent, body := bodyD n.entries }
+
+def ClassOk (e : Entry) : Prop := ∃ m, classify e.quoted e.token = .ok m
+
+theorem foldlM_ok (es : List Entry) (b0 b : VersionBody)
+    (h : es.foldlM (fun b e => do
+      let m ← classify e.quoted e.token
+      pure (b.push e m)) b0 = Except.ok b) :
+    b = es.foldl bodyStep b0 ∧ ∀ e ∈ es, ClassOk e := by
+  induction es generalizing b0 with
+  | nil =>
+    simp only [List.foldlM_nil, pure, Except.pure, Except.ok.injEq] at h
+    simp [h]
+  | cons e es ih =>
+    rw [List.foldlM_cons] at h
+    cases hc : classify e.quoted e.token with
+    | error err => simp [hc, bind, Except.bind] at h
+    | ok m =>
+      simp only [hc, bind, Except.bind, pure, Except.pure] at h
+      have hm : classifyD e = m := by simp [classifyD, hc]
+      obtain ⟨h1, h2⟩ := ih _ h
+      refine ⟨?_, ?_⟩
+      · rw [List.foldl_cons, bodyStep, hm]; exact h1
+      · intro e' he'
+        rcases List.mem_cons.mp he' with rfl | he'
+        · exact ⟨m, hc⟩
+        · exact h2 _ he'
+
+theorem buildBody_ok (es : List Entry) (b : VersionBody) (h : buildBody es = .ok b) :
+    b = bodyD es ∧ ∀ e ∈ es, ClassOk e := foldlM_ok es {} b h
+
+def mkVer (n : Node) : Except CompileError Version := do
+  let b ← buildBody n.entries
+  pure ({ name := n.name, parentIndex := n.parent, body := b } : Version)
+
+theorem mkVer_ok (n : Node) (v : Version) (h : mkVer n = .ok v) :
+    v = verD n ∧ ∀ e ∈ n.entries, ClassOk e := by
+  unfold mkVer at h
+  cases hb : buildBody n.entries with
+  | error err => simp [hb, bind, Except.bind] at h
+  | ok b =>
+    simp only [hb, bind, Except.bind, pure, Except.pure, Except.ok.injEq] at h
+    obtain ⟨hb1, hb2⟩ := buildBody_ok _ _ hb
+    exact ⟨by rw [← h, hb1]; rfl, hb2⟩
+
+theorem mapM_ok (nodes : List Node) (vs : List Version) (h : nodes.mapM mkVer = Except.ok vs) :
+    vs = nodes.map verD ∧ ∀ n ∈ nodes, ∀ e ∈ n.entries, ClassOk e := by
+  induction nodes generalizing vs with
+  | nil =>
+    simp only [List.mapM_nil, pure, Except.pure, Except.ok.injEq] at h
+    simp [← h]
+  | cons n ns ih =>
+    rw [List.mapM_cons] at h
+    cases hb : mkVer n with
+    | error err => rw [hb] at h; simp [bind, Except.bind] at h
+    | ok v =>
+      cases hr : List.mapM mkVer ns with
+      | error err => rw [hb, hr] at h; simp [bind, Except.bind] at h
+      | ok vs' =>
+        rw [hb, hr] at h
+        simp only [bind, Except.bind, pure, Except.pure, Except.ok.injEq] at h
+        obtain ⟨h1, h2⟩ := ih vs' hr
+        obtain ⟨hb1, hb2⟩ := mkVer_ok _ _ hb
+        refine ⟨?_, ?_⟩
+        · rw [← h, h1, hb1]; rfl
+        · intro n' hn'
+          rcases List.mem_cons.mp hn' with rfl | hn'
+          · exact hb2
+          · exact h2 _ hn'
+
+theorem build_ok (nodes : List Node) (vs : List Version) (h : build false nodes = .ok (.regular vs)) :
+    vs = {} :: nodes.map verD ∧ ∀ n ∈ nodes, ∀ e ∈ n.entries, ClassOk e := by
+  have h' : (nodes.mapM mkVer >>= fun vs => pure (Script.regular ({} :: vs))) = Except.ok (.regular vs) := h
+  cases hr : List.mapM mkVer nodes with
+  | error err => rw [hr] at h'; simp [bind, Except.bind] at h'
+  | ok vs' =>
+    rw [hr] at h'
+    simp only [bind, Except.bind, pure, Except.pure, Except.ok.injEq, Script.regular.injEq] at h'
+    obtain ⟨h1, h2⟩ := mapM_ok nodes vs' hr
+    exact ⟨by rw [← h', h1], h2⟩
+
+/-- One of the four `BasicRules` of a body. -/
+def sel (loc cxx : Bool) (b : VersionBody) : BasicRules :=
+  match loc, cxx with
+  | false, false => b.globals.general
+  | false, true => b.globals.cxx
+  | true, false => b.locals.general
+  | true, true => b.locals.cxx
+
+theorem sel_push (loc cxx : Bool) (b : VersionBody) (e : Entry) (m : SymbolMatcher) :
+    sel loc cxx (b.push e m) =
+      if (e.isLocal == loc && e.isCxx == cxx) then (sel loc cxx b).push m else sel loc cxx b := by
+  cases loc <;> cases cxx <;> cases h1 : e.isLocal <;> cases h2 : e.isCxx <;>
+    simp [sel, VersionBody.push, h1, h2]
+
+def rulesOf (ms : List SymbolMatcher) (r0 : BasicRules) : BasicRules := ms.foldl BasicRules.push r0
+
+theorem sel_fold (loc cxx : Bool) (es : List Entry) (b0 : VersionBody) :
+    sel loc cxx (es.foldl bodyStep b0) =
+      rulesOf ((es.filter (fun e => e.isLocal == loc && e.isCxx == cxx)).map classifyD) (sel loc cxx b0) := by
+  induction es generalizing b0 with
+  | nil => rfl
+  | cons e es ih =>
+    rw [List.foldl_cons, ih, bodyStep, sel_push, List.filter_cons]
+    by_cases hc : (e.isLocal == loc && e.isCxx == cxx) = true
+    · simp only [hc, if_true, List.map_cons, rulesOf, List.foldl_cons]
+    · simp only [hc, Bool.false_eq_true, if_false]
+
+def exactHit (name : Bytes) : SymbolMatcher → Bool
+  | .exact n => name == n
+  | .escapedExact raw => name == unescape raw
+  | _ => false
+
+def globHit (ns : Bool) (name : Bytes) : SymbolMatcher → Bool
+  | .nonstarGlob g => ns && matchesBytes g name
+  | .starGlob g => !ns && matchesBytes g name
+  | _ => false
+
+def allHit : SymbolMatcher → Bool
+  | .matchesAll => true
+  | _ => false
+
+theorem push_matchesExact (r : BasicRules) (m : SymbolMatcher) (name : Bytes) :
+    (r.push m).matchesExact name = (r.matchesExact name || exactHit name m) := by
+  have hd : ∀ a b : Bytes, (a == b) = decide (a = b) := fun a b => by rw [Bool.eq_iff_iff]; simp
+  cases m <;> simp [BasicRules.push, BasicRules.matchesExact, exactHit, Bool.or_assoc, Bool.or_comm, hd]
+
+theorem push_matchesGlob (r : BasicRules) (m : SymbolMatcher) (ns : Bool) (name : Bytes) :
+    (r.push m).matchesGlob ns name = (r.matchesGlob ns name || globHit ns name m) := by
+  cases m <;> cases ns <;> simp [BasicRules.push, BasicRules.matchesGlob, globHit]
+
+theorem push_matchesAll (r : BasicRules) (m : SymbolMatcher) :
+    (r.push m).matchesAll = (r.matchesAll || allHit m) := by
+  cases m <;> simp [BasicRules.push, allHit]
+
+theorem rulesOf_matchesExact (ms : List SymbolMatcher) (r0 : BasicRules) (name : Bytes) :
+    (rulesOf ms r0).matchesExact name = (r0.matchesExact name || ms.any (exactHit name)) := by
+  induction ms generalizing r0 with
+  | nil => simp [rulesOf]
+  | cons m ms ih =>
+    have := ih (r0.push m)
+    simp only [rulesOf, List.foldl_cons] at this ⊢
+    rw [this, push_matchesExact, List.any_cons, Bool.or_assoc]
+
+theorem rulesOf_matchesGlob (ms : List SymbolMatcher) (r0 : BasicRules) (ns : Bool) (name : Bytes) :
+    (rulesOf ms r0).matchesGlob ns name = (r0.matchesGlob ns name || ms.any (globHit ns name)) := by
+  induction ms generalizing r0 with
+  | nil => simp [rulesOf]
+  | cons m ms ih =>
+    have := ih (r0.push m)
+    simp only [rulesOf, List.foldl_cons] at this ⊢
+    rw [this, push_matchesGlob, List.any_cons, Bool.or_assoc]
+
+theorem rulesOf_matchesAll (ms : List SymbolMatcher) (r0 : BasicRules) :
+    (rulesOf ms r0).matchesAll = (r0.matchesAll || ms.any allHit) := by
+  induction ms generalizing r0 with
+  | nil => simp [rulesOf]
+  | cons m ms ih =>
+    have := ih (r0.push m)
+    simp only [rulesOf, List.foldl_cons] at this ⊢
+    rw [this, push_matchesAll, List.any_cons, Bool.or_assoc]
+
+/-- The matchers of the entries of one section/language of a node. -/
+def matchersOf (loc cxx : Bool) (es : List Entry) : List SymbolMatcher :=
+  (es.filter (fun e => e.isLocal == loc && e.isCxx == cxx)).map classifyD
+
+theorem sel_bodyD (loc cxx : Bool) (es : List Entry) :
+    sel loc cxx (bodyD es) = rulesOf (matchersOf loc cxx es) {} := by
+  unfold bodyD matchersOf
+  rw [sel_fold]
+  cases loc <;> cases cxx <;> rfl
+
+theorem sel_bodyD_exact (loc cxx : Bool) (es : List Entry) (name : Bytes) :
+    (sel loc cxx (bodyD es)).matchesExact name = (matchersOf loc cxx es).any (exactHit name) := by
+  rw [sel_bodyD, rulesOf_matchesExact]; simp [BasicRules.matchesExact]
+
+theorem sel_bodyD_glob (loc cxx : Bool) (es : List Entry) (ns : Bool) (name : Bytes) :
+    (sel loc cxx (bodyD es)).matchesGlob ns name = (matchersOf loc cxx es).any (globHit ns name) := by
+  rw [sel_bodyD, rulesOf_matchesGlob]; cases ns <;> simp [BasicRules.matchesGlob]
+
+theorem sel_bodyD_all (loc cxx : Bool) (es : List Entry) :
+    (sel loc cxx (bodyD es)).matchesAll = (matchersOf loc cxx es).any allHit := by
+  rw [sel_bodyD, rulesOf_matchesAll]; simp
+
+theorem matchersOf_cxx_nil (loc : Bool) (es : List Entry) (h : ∀ e ∈ es, e.isCxx = false) :
+    matchersOf loc true es = [] := by
+  unfold matchersOf
+  rw [List.map_eq_nil_iff, List.filter_eq_nil_iff]
+  intro e he
+  simp [h e he]
+
+/-! ### Per-entry agreement -/
+
+/-- GNU ld reads the (C-language) entry as a literal equal to `name`. -/
+def litE (name : Bytes) (e : Entry) : Bool := (toPat e).literal == some name
+/-- GNU ld reads the entry as a wildcard (not the lone `*`). Syntactic. -/
+def isWild (e : Entry) : Bool := (toPat e).literal.isNone && !(toPat e).isStar
+/-- The entry is the match-all `*`. -/
+def starE (e : Entry) : Bool := (toPat e).isStar
+/-- GNU ld: wildcard entry matching `name`. -/
+def wildE (name : Bytes) (e : Entry) : Bool := isWild e && wmModel e.token name
+
+/-- Per-entry side condition: C language, and a token that GNU ld reads as a literal has no `]`. -/
+def EntryOK (e : Entry) : Bool :=
+  !e.isCxx && (e.quoted || (realsymbol e.token).isNone || !e.token.contains bClose)
+
+theorem classifyD_eq (e : Entry) (m : SymbolMatcher) (h : classify e.quoted e.token = .ok m) : classifyD e = m := by
+  simp [classifyD, h]
+
+theorem entry_agree (e : Entry) (name : Bytes) (hok : EntryOK e = true) (hc : ClassOk e) :
+    exactHit name (classifyD e) = litE name e ∧
+    globHit true name (classifyD e) = (wildE name e && analyze e.token == .nonStar) ∧
+    globHit false name (classifyD e) = (wildE name e && analyze e.token == .star) ∧
+    allHit (classifyD e) = starE e ∧
+    (isWild e = true → analyze e.token = .star ∨ analyze e.token = .nonStar) := by
+  obtain ⟨m, hm⟩ := hc
+  rw [classifyD_eq e m hm]
+  obtain ⟨loc, cxx, q, tok⟩ := e
+  simp only [EntryOK, Bool.and_eq_true, Bool.not_eq_true', Bool.or_eq_true] at hok
+  obtain ⟨hcxx, hok⟩ := hok
+  simp only [litE, wildE, isWild, starE, toPat, Pat.literal, Pat.isStar] at *
+  unfold classify at hm
+  cases q with
+  | true =>
+    simp only [if_true, Except.ok.injEq] at hm
+    subst hm
+    simp [exactHit, globHit, allHit]
+    exact BEq.comm
+  | false =>
+    simp only [Bool.false_eq_true, if_false] at hm hok ⊢
+    by_cases hst : tok = [bStar]
+    · subst hst
+      simp only [beq_self_eq_true, if_true, Except.ok.injEq] at hm
+      subst hm
+      simp [exactHit, globHit, allHit, realsymbol, bStar]
+    · have hst' : (tok == [bStar]) = false := by simpa using hst
+      simp only [hst', Bool.false_eq_true, if_false] at hm
+      have hst2 : (tok == [42]) = false := hst'
+      cases hr : realsymbol tok with
+      | none =>
+        cases hcmp : compile tok with
+        | error err =>
+          rcases realsymbol_none_analyze tok hr with ha | ha <;>
+            · rw [ha] at hm; simp [hcmp, Except.map] at hm
+        | ok toks =>
+          have hw : wmModel tok name = matchesBytes toks name := by simp [wmModel, hcmp]
+          rcases realsymbol_none_analyze tok hr with ha | ha
+          · rw [ha] at hm
+            simp only [hcmp, Except.map, Except.ok.injEq] at hm
+            subst hm
+            simp [exactHit, globHit, allHit, hst2, ha, hw]
+          · rw [ha] at hm
+            simp only [hcmp, Except.map, Except.ok.injEq] at hm
+            subst hm
+            simp [exactHit, globHit, allHit, hst2, ha, hw]
+      | some l =>
+        have hcl : bClose ∉ tok := by
+          simpa [hr] using hok
+        rcases realsymbol_some_analyze tok l hr hcl with ⟨ha, hl⟩ | ⟨ha, hl⟩
+        · rw [ha] at hm
+          simp only [Except.ok.injEq] at hm
+          subst hm
+          subst hl
+          simp [exactHit, globHit, allHit, hst2, ha]
+          exact BEq.comm
+        · rw [ha] at hm
+          simp only [Except.ok.injEq] at hm
+          subst hm
+          subst hl
+          simp [exactHit, globHit, allHit, hst2, ha]
+          exact BEq.comm
+
+/-! ### Abstract precedence -/
+
+def firstSome : Nat → List (Option Section) → Option (Nat × Section)
+  | _, [] => none
+  | i, x :: xs =>
+    match x with
+    | some s => some (i, s)
+    | none => firstSome (i + 1) xs
+
+def lastSome : Nat → List (Option Section) → Option (Nat × Section)
+  | _, [] => none
+  | i, x :: xs =>
+    match lastSome (i + 1) xs with
+    | some r => some r
+    | none => x.map (fun s => (i, s))
+
+def lastTrue : Nat → List Bool → Option Nat
+  | _, [] => none
+  | i, x :: xs =>
+    match lastTrue (i + 1) xs with
+    | some r => some r
+    | none => if x then some i else none
+
+def opt1 (s : Section) (p : Bool) : Option Section := if p then some s else none
+def opt2 (p q : Bool) : Option Section := if p then some .global else if q then some .loc else none
+
+def shift (r : Nat × Section) : Nat × Section := (r.1 + 1, r.2)
+
+theorem firstSome_shift (i : Nat) (l : List (Option Section)) :
+    firstSome (i + 1) l = (firstSome i l).map shift := by
+  induction l generalizing i with
+  | nil => rfl
+  | cons x xs ih =>
+    cases x with
+    | none => simp only [firstSome]; exact ih (i + 1)
+    | some s => simp [firstSome, shift]
+
+theorem lastTrue_shift (i : Nat) (l : List Bool) :
+    lastTrue (i + 1) l = (lastTrue i l).map (· + 1) := by
+  induction l generalizing i with
+  | nil => rfl
+  | cons x xs ih =>
+    simp only [lastTrue]
+    rw [ih (i + 1)]
+    cases lastTrue (i + 1) xs with
+    | none => cases x <;> simp
+    | some r => simp
+
+theorem lastSome_opt1 (s : Section) (i : Nat) (l : List Bool) :
+    lastSome i (l.map (opt1 s)) = (lastTrue i l).map (fun j => (j, s)) := by
+  induction l generalizing i with
+  | nil => rfl
+  | cons x xs ih =>
+    simp only [List.map_cons, lastSome, lastTrue]
+    rw [ih (i + 1)]
+    cases lastTrue (i + 1) xs with
+    | none => cases x <;> simp [opt1]
+    | some r => simp
+
+theorem lastSome_none (i : Nat) (l : List (Option Section)) (h : ∀ x ∈ l, x = none) : lastSome i l = none := by
+  induction l generalizing i with
+  | nil => rfl
+  | cons x xs ih =>
+    simp only [lastSome]
+    rw [ih (i + 1) (fun y hy => h y (List.mem_cons_of_mem _ hy)), h x (List.mem_cons_self ..)]
+    rfl
+
+theorem lastSome_isSome (i : Nat) (l : List (Option Section)) (h : ∃ x ∈ l, x.isSome = true) :
+    (lastSome i l).isSome = true := by
+  induction l generalizing i with
+  | nil => simp at h
+  | cons x xs ih =>
+    simp only [lastSome]
+    cases hr : lastSome (i + 1) xs with
+    | some r => rfl
+    | none =>
+      obtain ⟨y, hy, hys⟩ := h
+      rcases List.mem_cons.mp hy with rfl | hy
+      · cases y <;> simp_all
+      · have := ih (i + 1) ⟨y, hy, hys⟩
+        rw [hr] at this; simp at this
+
+/-- Two wildcard classes in one section collapse to GNU's single class when one class is empty
+or at most one node has wildcards. -/
+theorem glob_phase_one_section {α : Type} (s : Section) (p q h : α → Bool) (l : List α) (i : Nat)
+    (hc : (∀ a ∈ l, p a = false) ∨ (∀ a ∈ l, q a = false) ∨
+      ((l.filter h).length ≤ 1 ∧ ∀ a ∈ l, h a = false → p a = false ∧ q a = false)) :
+    (lastSome i (l.map (fun a => opt1 s (p a)))).or (lastSome i (l.map (fun a => opt1 s (q a)))) =
+      lastSome i (l.map (fun a => opt1 s (p a || q a))) := by
+  have hn : lastSome i (l.map (fun _ => (none : Option Section))) = none := lastSome_none _ _ (by simp)
+  rcases hc with hp | hq | ⟨hlen, hh⟩
+  · have e1 : l.map (fun a => opt1 s (p a)) = l.map (fun _ => none) :=
+      List.map_congr_left (fun a ha => by simp [hp a ha, opt1])
+    have e2 : l.map (fun a => opt1 s (p a || q a)) = l.map (fun a => opt1 s (q a)) :=
+      List.map_congr_left (fun a ha => by simp [hp a ha])
+    rw [e1, e2, hn]
+    simp
+  · have e1 : l.map (fun a => opt1 s (q a)) = l.map (fun _ => none) :=
+      List.map_congr_left (fun a ha => by simp [hq a ha, opt1])
+    have e2 : l.map (fun a => opt1 s (p a || q a)) = l.map (fun a => opt1 s (p a)) :=
+      List.map_congr_left (fun a ha => by simp [hq a ha])
+    rw [e1, e2, hn]
+    simp
+  · clear hn
+    induction l generalizing i with
+    | nil => rfl
+    | cons a l ih =>
+      by_cases ha : h a = true
+      · have hnil : l.filter h = [] := by
+          simp only [List.filter_cons, ha, if_true, List.length_cons] at hlen
+          exact List.eq_nil_of_length_eq_zero (by omega)
+        have hl : ∀ b ∈ l, p b = false ∧ q b = false := fun b hb =>
+          hh b (List.mem_cons_of_mem _ hb) (by
+            have := List.filter_eq_nil_iff.mp hnil b hb
+            simpa using this)
+        have n1 : lastSome (i + 1) (l.map (fun a => opt1 s (p a))) = none :=
+          lastSome_none _ _ (by
+            intro x hx; obtain ⟨b, hb, rfl⟩ := List.mem_map.mp hx; simp [(hl b hb).1, opt1])
+        have n2 : lastSome (i + 1) (l.map (fun a => opt1 s (q a))) = none :=
+          lastSome_none _ _ (by
+            intro x hx; obtain ⟨b, hb, rfl⟩ := List.mem_map.mp hx; simp [(hl b hb).2, opt1])
+        have n3 : lastSome (i + 1) (l.map (fun a => opt1 s (p a || q a))) = none :=
+          lastSome_none _ _ (by
+            intro x hx; obtain ⟨b, hb, rfl⟩ := List.mem_map.mp hx; simp [(hl b hb).1, (hl b hb).2, opt1])
+        simp only [List.map_cons, lastSome, n1, n2, n3]
+        cases p a <;> cases q a <;> simp [opt1]
+      · have ha' : h a = false := by simpa using ha
+        obtain ⟨hpa, hqa⟩ := hh a (List.mem_cons_self ..) ha'
+        have hlen' : (l.filter h).length ≤ 1 := by
+          simpa [List.filter_cons, ha'] using hlen
+        have := ih (i + 1) hlen' (fun b hb => hh b (List.mem_cons_of_mem _ hb))
+        simp only [List.map_cons, lastSome, hpa, hqa, opt1, Bool.false_eq_true, if_false, Bool.or_false, Option.map_none]
+        simp only [opt1] at this
+        cases h1 : lastSome (i + 1) (l.map (fun a => if p a = true then some s else none)) <;>
+        cases h2 : lastSome (i + 1) (l.map (fun a => if q a = true then some s else none)) <;>
+        cases h3 : lastSome (i + 1) (l.map (fun a => if (p a || q a) = true then some s else none)) <;>
+        simp_all
+
+/-- Match-all phase: the `*` sections may be consulted globals-first (GNU) or node-by-node (wild)
+when no node with a global `*` is followed by a node with a local `*` unless a still later node has
+a global `*` again; i.e. there is no global `*`, or the last node with any `*` has a global `*`. -/
+def starOK {α : Type} (ag al : α → Bool) : List α → Bool
+  | [] => true
+  | a :: r => starOK ag al r && (r.any ag || !ag a || !r.any al)
+
+theorem all_phase {α : Type} (ag al : α → Bool) (l : List α) (i : Nat) (h : starOK ag al l = true) :
+    lastSome i (l.map (fun a => opt2 (ag a) (al a))) =
+      (lastSome i (l.map (fun a => opt1 .global (ag a)))).or (lastSome i (l.map (fun a => opt1 .loc (al a)))) := by
+  induction l generalizing i with
+  | nil => rfl
+  | cons a r ih =>
+    simp only [starOK, Bool.and_eq_true] at h
+    obtain ⟨hr, hc⟩ := h
+    simp only [List.map_cons, lastSome]
+    rw [ih (i + 1) hr]
+    cases hP : lastSome (i + 1) (r.map (fun a => opt1 .global (ag a))) with
+    | some x => simp
+    | none =>
+      by_cases h1 : r.any ag = true
+      · exfalso
+        obtain ⟨b, hb, hab⟩ := List.any_eq_true.mp h1
+        have := lastSome_isSome (i + 1) (r.map (fun a => opt1 .global (ag a)))
+          ⟨_, List.mem_map.mpr ⟨b, hb, rfl⟩, by simp [opt1, hab]⟩
+        rw [hP] at this; simp at this
+      · by_cases h2 : ag a = true
+        · have h3 : r.any al = false := by simpa [h1, h2] using hc
+          have hQ : lastSome (i + 1) (r.map (fun a => opt1 .loc (al a))) = none :=
+            lastSome_none _ _ (by
+              intro x hx; obtain ⟨b, hb, rfl⟩ := List.mem_map.mp hx
+              have : al b = false := by
+                cases hb' : al b
+                · rfl
+                · have : r.any al = true := List.any_eq_true.mpr ⟨b, hb, hb'⟩
+                  rw [h3] at this; cases this
+              simp [this, opt1])
+          rw [hQ]; simp [opt1, opt2, h2]
+        · have h2' : ag a = false := by simpa using h2
+          cases lastSome (i + 1) (r.map (fun a => opt1 .loc (al a))) <;> cases al a <;> simp [opt1, opt2, h2']
+
+/-! ### GNU ld's scan in closed form -/
+
+/-- GNU's literal step for one node. -/
+def gEx (dem : Bytes → Bytes) (name : Bytes) (t : Wild.GnuVersionSpec.Node) : Option Section :=
+  opt2 (litMatch dem t.globals name) (litMatch dem t.locals name)
+
+theorem lastTrue_cons_or (i : Nat) (x : Bool) (xs : List Bool) (o : Option Nat) :
+    (lastTrue i (x :: xs)).or o = (lastTrue (i + 1) xs).or (if x then some i else o) := by
+  simp only [lastTrue]
+  cases lastTrue (i + 1) xs <;> cases x <;> simp
+
+theorem scan_eq (wm : Bytes → Bytes → Bool) (dem : Bytes → Bytes) (name : Bytes)
+    (ts : List Wild.GnuVersionSpec.Node) (i : Nat) (acc : Acc) :
+    scan wm dem name i acc ts =
+      match firstSome i (ts.map (gEx dem name)) with
+      | some (j, s) => .stop j (s == .loc)
+      | none => .cont
+          { gv := (lastTrue i (ts.map (fun t => wildMatch wm dem t.globals name))).or acc.gv
+            lv := (lastTrue i (ts.map (fun t => wildMatch wm dem t.locals name))).or acc.lv
+            sgv := (lastTrue i (ts.map (fun t => starMatch t.globals))).or acc.sgv
+            slv := (lastTrue i (ts.map (fun t => starMatch t.locals))).or acc.slv } := by
+  induction ts generalizing i acc with
+  | nil => simp [scan, firstSome, lastTrue]
+  | cons t ts ih =>
+    simp only [List.map_cons, lastTrue_cons_or]
+    unfold scan
+    simp only [gEx]
+    generalize litMatch dem t.globals name = a1
+    generalize litMatch dem t.locals name = a2
+    generalize wildMatch wm dem t.globals name = b1
+    generalize wildMatch wm dem t.locals name = b2
+    generalize starMatch t.globals = c1
+    generalize starMatch t.locals = c2
+    cases a1
+    · cases a2
+      · cases b1 <;> cases b2 <;> cases c1 <;> cases c2 <;> simp [firstSome, opt2, ih]
+      · simp [firstSome, opt2]
+    · simp [firstSome, opt2]
+
+
+theorem gnuFindIdx_eq (dem : Bytes → Bytes) (nodes : List Node) (name : Bytes) :
+    gnuFindIdx dem nodes name =
+      (firstSome 1 ((nodes.map toSpecNode).map (gEx dem name))).or
+      ((lastSome 1 (((nodes.map toSpecNode).map (fun t => wildMatch wmModel dem t.globals name)).map (opt1 .global))).or
+      ((lastSome 1 (((nodes.map toSpecNode).map (fun t => wildMatch wmModel dem t.locals name)).map (opt1 .loc))).or
+      ((lastSome 1 (((nodes.map toSpecNode).map (fun t => starMatch t.globals)).map (opt1 .global))).or
+       (lastSome 1 (((nodes.map toSpecNode).map (fun t => starMatch t.locals)).map (opt1 .loc)))))) := by
+  unfold gnuFindIdx gnuFind
+  rw [scan_eq]
+  simp only [lastSome_opt1, firstSome_shift 0, lastTrue_shift 0]
+  cases firstSome 0 ((nodes.map toSpecNode).map (gEx dem name)) with
+  | some r =>
+    obtain ⟨j, s⟩ := r
+    cases s <;> simp [shift]
+  | none =>
+    cases lastTrue 0 ((nodes.map toSpecNode).map (fun t => wildMatch wmModel dem t.globals name)) <;>
+    cases lastTrue 0 ((nodes.map toSpecNode).map (fun t => wildMatch wmModel dem t.locals name)) <;>
+    cases lastTrue 0 ((nodes.map toSpecNode).map (fun t => starMatch t.globals)) <;>
+    cases lastTrue 0 ((nodes.map toSpecNode).map (fun t => starMatch t.locals)) <;> simp
+
+/-! ### Per-node agreement -/
+
+theorem any_congr_mem {α : Type} {l : List α} {f g : α → Bool} (h : ∀ a ∈ l, f a = g a) : l.any f = l.any g := by
+  induction l with
+  | nil => rfl
+  | cons a l ih =>
+    simp only [List.any_cons]
+    rw [h a (List.mem_cons_self ..), ih (fun b hb => h b (List.mem_cons_of_mem _ hb))]
+
+/-- Some entry in the `global:` (`loc = false`) / `local:` (`loc = true`) section of the node satisfies `f`. -/
+def secAny (loc : Bool) (f : Entry → Bool) (n : Node) : Bool :=
+  n.entries.any (fun e => (e.isLocal == loc) && f e)
+
+/-- wild: wildcard entry of the `*`-free class / of the `*` class matching `name`. -/
+def nsE (name : Bytes) (e : Entry) : Bool := wildE name e && analyze e.token == .nonStar
+def stE (name : Bytes) (e : Entry) : Bool := wildE name e && analyze e.token == .star
+
+def NodeOK (n : Node) : Prop := ∀ e ∈ n.entries, EntryOK e = true ∧ ClassOk e
+
+theorem entryOK_cxx (e : Entry) (h : EntryOK e = true) : e.isCxx = false := by
+  simp only [EntryOK, Bool.and_eq_true, Bool.not_eq_true'] at h
+  exact h.1
+
+theorem matchersOf_any (loc : Bool) (n : Node) (hn : NodeOK n) (f : SymbolMatcher → Bool) (g : Entry → Bool)
+    (hfg : ∀ e ∈ n.entries, f (classifyD e) = g e) :
+    (matchersOf loc false n.entries).any f = secAny loc g n := by
+  unfold matchersOf secAny
+  rw [List.any_map, List.any_filter]
+  apply any_congr_mem
+  intro e he
+  simp [entryOK_cxx e (hn e he).1, hfg e he]
+
+theorem wild_exact (loc : Bool) (n : Node) (hn : NodeOK n) (name : Bytes) :
+    (sel loc false (bodyD n.entries)).matchesExact name = secAny loc (litE name) n := by
+  rw [sel_bodyD_exact]
+  exact matchersOf_any loc n hn _ _ (fun e he => (entry_agree e name (hn e he).1 (hn e he).2).1)
+
+theorem wild_glob_ns (loc : Bool) (n : Node) (hn : NodeOK n) (name : Bytes) :
+    (sel loc false (bodyD n.entries)).matchesGlob true name = secAny loc (nsE name) n := by
+  rw [sel_bodyD_glob]
+  exact matchersOf_any loc n hn _ _ (fun e he => (entry_agree e name (hn e he).1 (hn e he).2).2.1)
+
+theorem wild_glob_st (loc : Bool) (n : Node) (hn : NodeOK n) (name : Bytes) :
+    (sel loc false (bodyD n.entries)).matchesGlob false name = secAny loc (stE name) n := by
+  rw [sel_bodyD_glob]
+  exact matchersOf_any loc n hn _ _ (fun e he => (entry_agree e name (hn e he).1 (hn e he).2).2.2.1)
+
+theorem wild_all (loc : Bool) (n : Node) (hn : NodeOK n) :
+    (sel loc false (bodyD n.entries)).matchesAll = secAny loc starE n := by
+  rw [sel_bodyD_all]
+  exact matchersOf_any loc n hn _ _ (fun e he => (entry_agree e [] (hn e he).1 (hn e he).2).2.2.2.1)
+
+theorem wild_cxx (loc : Bool) (n : Node) (hn : NodeOK n) : sel loc true (bodyD n.entries) = {} := by
+  rw [sel_bodyD, matchersOf_cxx_nil loc _ (fun e he => entryOK_cxx e (hn e he).1)]
+  rfl
+
+theorem exactIn_node (dem : Bytes → Bytes) (n : Node) (hn : NodeOK n) (name : Bytes) :
+    exactIn dem (verD n).body name = opt2 (secAny false (litE name) n) (secAny true (litE name) n) := by
+  have e : exactIn dem (verD n).body name =
+      if (sel false false (bodyD n.entries)).matchesExact name then some .global
+      else if (sel true false (bodyD n.entries)).matchesExact name then some .loc
+      else if (sel false true (bodyD n.entries)).matchesExact (dem name) then some .global
+      else if (sel true true (bodyD n.entries)).matchesExact (dem name) then some .loc
+      else none := rfl
+  rw [e, wild_exact false n hn, wild_exact true n hn, wild_cxx false n hn, wild_cxx true n hn]
+  simp [opt2, BasicRules.matchesExact]
+
+theorem globIn_ns_node (dem : Bytes → Bytes) (n : Node) (hn : NodeOK n) (name : Bytes) :
+    globIn dem true (verD n).body name = opt2 (secAny false (nsE name) n) (secAny true (nsE name) n) := by
+  have e : globIn dem true (verD n).body name =
+      if (sel false false (bodyD n.entries)).matchesGlob true name || (sel false true (bodyD n.entries)).matchesGlob true (dem name) then some .global
+      else if (sel true false (bodyD n.entries)).matchesGlob true name || (sel true true (bodyD n.entries)).matchesGlob true (dem name) then some .loc
+      else none := rfl
+  rw [e, wild_glob_ns false n hn, wild_glob_ns true n hn, wild_cxx false n hn, wild_cxx true n hn]
+  simp [opt2, BasicRules.matchesGlob]
+
+theorem globIn_st_node (dem : Bytes → Bytes) (n : Node) (hn : NodeOK n) (name : Bytes) :
+    globIn dem false (verD n).body name = opt2 (secAny false (stE name) n) (secAny true (stE name) n) := by
+  have e : globIn dem false (verD n).body name =
+      if (sel false false (bodyD n.entries)).matchesGlob false name || (sel false true (bodyD n.entries)).matchesGlob false (dem name) then some .global
+      else if (sel true false (bodyD n.entries)).matchesGlob false name || (sel true true (bodyD n.entries)).matchesGlob false (dem name) then some .loc
+      else none := rfl
+  rw [e, wild_glob_st false n hn, wild_glob_st true n hn, wild_cxx false n hn, wild_cxx true n hn]
+  simp [opt2, BasicRules.matchesGlob]
+
+theorem allIn_node (n : Node) (hn : NodeOK n) :
+    allIn (verD n).body = opt2 (secAny false starE n) (secAny true starE n) := by
+  have e : allIn (verD n).body =
+      if (sel false false (bodyD n.entries)).matchesAll || (sel false true (bodyD n.entries)).matchesAll then some .global
+      else if (sel true false (bodyD n.entries)).matchesAll || (sel true true (bodyD n.entries)).matchesAll then some .loc
+      else none := rfl
+  rw [e, wild_all false n hn, wild_all true n hn, wild_cxx false n hn, wild_cxx true n hn]
+  simp [opt2]
+
+
+/-! GNU side, per node -/
+
+theorem gnu_lit_g (dem : Bytes → Bytes) (n : Node) (hn : NodeOK n) (name : Bytes) :
+    litMatch dem (toSpecNode n).globals name = secAny false (litE name) n := by
+  unfold litMatch toSpecNode secAny
+  rw [List.any_map, List.any_filter]
+  apply any_congr_mem
+  intro e he
+  have : (toPat e).cxx = false := entryOK_cxx e (hn e he).1
+  simp [litE, symFor, this]
+
+theorem gnu_lit_l (dem : Bytes → Bytes) (n : Node) (hn : NodeOK n) (name : Bytes) :
+    litMatch dem (toSpecNode n).locals name = secAny true (litE name) n := by
+  unfold litMatch toSpecNode secAny
+  rw [List.any_map, List.any_filter]
+  apply any_congr_mem
+  intro e he
+  have : (toPat e).cxx = false := entryOK_cxx e (hn e he).1
+  simp [litE, symFor, this]
+
+theorem gnu_wild_g (dem : Bytes → Bytes) (n : Node) (hn : NodeOK n) (name : Bytes) :
+    wildMatch wmModel dem (toSpecNode n).globals name = secAny false (wildE name) n := by
+  unfold wildMatch toSpecNode secAny
+  rw [List.any_map, List.any_filter]
+  apply any_congr_mem
+  intro e he
+  have : e.isCxx = false := entryOK_cxx e (hn e he).1
+  simp [wildE, isWild, symFor, this, toPat]
+
+theorem gnu_wild_l (dem : Bytes → Bytes) (n : Node) (hn : NodeOK n) (name : Bytes) :
+    wildMatch wmModel dem (toSpecNode n).locals name = secAny true (wildE name) n := by
+  unfold wildMatch toSpecNode secAny
+  rw [List.any_map, List.any_filter]
+  apply any_congr_mem
+  intro e he
+  have : e.isCxx = false := entryOK_cxx e (hn e he).1
+  simp [wildE, isWild, symFor, this, toPat]
+
+theorem gnu_star_g (n : Node) : starMatch (toSpecNode n).globals = secAny false starE n := by
+  unfold starMatch toSpecNode secAny
+  rw [List.any_map, List.any_filter]
+  apply any_congr_mem
+  intro e he
+  simp [starE]
+
+theorem gnu_star_l (n : Node) : starMatch (toSpecNode n).locals = secAny true starE n := by
+  unfold starMatch toSpecNode secAny
+  rw [List.any_map, List.any_filter]
+  apply any_congr_mem
+  intro e he
+  simp [starE]
+
+theorem any_or_distrib {α : Type} (l : List α) (f g : α → Bool) :
+    l.any (fun a => f a || g a) = (l.any f || l.any g) := by
+  induction l with
+  | nil => rfl
+  | cons a l ih =>
+    simp only [List.any_cons, ih]
+    cases f a <;> cases g a <;> cases l.any f <;> cases l.any g <;> rfl
+
+/-- GNU's single wildcard class is the union of wild's two. -/
+theorem wild_split (loc : Bool) (n : Node) (hn : NodeOK n) (name : Bytes) :
+    secAny loc (wildE name) n = (secAny loc (nsE name) n || secAny loc (stE name) n) := by
+  unfold secAny
+  rw [← any_or_distrib]
+  apply any_congr_mem
+  intro e he
+  have h := (entry_agree e name (hn e he).1 (hn e he).2).2.2.2.2
+  unfold nsE stE wildE
+  cases hw : isWild e with
+  | false => simp
+  | true =>
+    rcases h hw with ha | ha <;> simp [ha]
+
+/-! List level -/
+
+theorem firstHit_map (f : VersionBody → Option Section) (g : Node → Option Section) (nodes : List Node) (i : Nat)
+    (h : ∀ n ∈ nodes, f (verD n).body = g n) :
+    firstHit f i (nodes.map verD) = firstSome i (nodes.map g) := by
+  induction nodes generalizing i with
+  | nil => rfl
+  | cons n ns ih =>
+    simp only [List.map_cons, firstHit, firstSome]
+    rw [h n (List.mem_cons_self ..), ih (i + 1) (fun m hm => h m (List.mem_cons_of_mem _ hm))]
+    cases g n <;> rfl
+
+theorem lastHit_map (f : VersionBody → Option Section) (g : Node → Option Section) (nodes : List Node) (i : Nat)
+    (h : ∀ n ∈ nodes, f (verD n).body = g n) :
+    lastHit f i (nodes.map verD) = lastSome i (nodes.map g) := by
+  induction nodes generalizing i with
+  | nil => rfl
+  | cons n ns ih =>
+    simp only [List.map_cons, lastHit, lastSome]
+    rw [h n (List.mem_cons_self ..), ih (i + 1) (fun m hm => h m (List.mem_cons_of_mem _ hm))]
+    cases lastSome (i + 1) (ns.map g) <;> rfl
+
+/-! ### The decidable class -/
+
+/-- Every wildcard entry (unquoted, not the lone `*`, with an unescaped `?`, `*` or `[`) satisfies `c`. -/
+def wildAll (c : Entry → Bool) (nodes : List Node) : Bool :=
+  nodes.all (fun n => n.entries.all (fun e => !isWild e || c e))
+
+/-- At most one node has wildcard entries. -/
+def wildOneNode (nodes : List Node) : Bool :=
+  decide ((nodes.filter (fun n => n.entries.any isWild)).length ≤ 1)
+
+/-- Scripts on which wild's `find_match` provably is GNU ld's choice for every symbol:
+* every entry is a C-language entry, and a token GNU ld reads as a literal contains no `]`;
+* (W) all wildcard entries are in `global:` sections or all are in `local:` sections, and they all
+  live in one node or are all of wild's `*` class or all of wild's `*`-free class;
+* (S) no node has a global `*`, or the last node that has any `*` has a global `*` (`starOK`). -/
+def GnuAgree (nodes : List Node) : Bool :=
+  nodes.all (fun n => n.entries.all EntryOK) &&
+  (wildAll (fun e => !e.isLocal) nodes || wildAll (fun e => e.isLocal) nodes) &&
+  (wildOneNode nodes || wildAll (fun e => analyze e.token == .star) nodes ||
+    wildAll (fun e => analyze e.token == .nonStar) nodes) &&
+  starOK (secAny false starE) (secAny true starE) nodes
+
+theorem wildAll_spec (c : Entry → Bool) (nodes : List Node) (h : wildAll c nodes = true)
+    (n : Node) (hn : n ∈ nodes) (e : Entry) (he : e ∈ n.entries) (hw : isWild e = true) : c e = true := by
+  unfold wildAll at h
+  have := List.all_eq_true.mp (List.all_eq_true.mp h n hn) e he
+  simpa [hw] using this
+
+theorem secAny_eq_false (loc : Bool) (f : Entry → Bool) (n : Node)
+    (h : ∀ e ∈ n.entries, e.isLocal = loc → f e = true → False) : secAny loc f n = false := by
+  unfold secAny
+  rw [List.any_eq_false]
+  intro e he hh
+  simp only [Bool.and_eq_true, beq_iff_eq] at hh
+  exact h e he hh.1 hh.2
+
+theorem nsE_wild (name : Bytes) (e : Entry) (h : nsE name e = true) : isWild e = true ∧ analyze e.token = .nonStar := by
+  simp only [nsE, wildE, Bool.and_eq_true, beq_iff_eq] at h
+  exact ⟨h.1.1, h.2⟩
+
+theorem stE_wild (name : Bytes) (e : Entry) (h : stE name e = true) : isWild e = true ∧ analyze e.token = .star := by
+  simp only [stE, wildE, Bool.and_eq_true, beq_iff_eq] at h
+  exact ⟨h.1.1, h.2⟩
+
+theorem kill (loc : Bool) (f c : Entry → Bool) (nodes : List Node) (hw : wildAll c nodes = true)
+    (hf : ∀ e, f e = true → isWild e = true)
+    (hcf : ∀ e, e.isLocal = loc → f e = true → c e = true → False) :
+    ∀ n ∈ nodes, secAny loc f n = false := by
+  intro n hn
+  apply secAny_eq_false
+  intro e he hl hfe
+  exact hcf e hl hfe (wildAll_spec c nodes hw n hn e he (hf e hfe))
+
+
+theorem glob_phase (nodes : List Node) (name : Bytes) (i : Nat)
+    (hsec : (wildAll (fun e => !e.isLocal) nodes || wildAll (fun e => e.isLocal) nodes) = true)
+    (hcls : (wildOneNode nodes || wildAll (fun e => analyze e.token == .star) nodes ||
+      wildAll (fun e => analyze e.token == .nonStar) nodes) = true) :
+    (lastSome i (nodes.map (fun n => opt2 (secAny false (nsE name) n) (secAny true (nsE name) n)))).or
+      (lastSome i (nodes.map (fun n => opt2 (secAny false (stE name) n) (secAny true (stE name) n)))) =
+    (lastSome i (nodes.map (fun n => opt1 .global (secAny false (nsE name) n || secAny false (stE name) n)))).or
+      (lastSome i (nodes.map (fun n => opt1 .loc (secAny true (nsE name) n || secAny true (stE name) n)))) := by
+  have hc : ∀ loc, (∀ n ∈ nodes, secAny loc (nsE name) n = false) ∨ (∀ n ∈ nodes, secAny loc (stE name) n = false) ∨
+      ((nodes.filter (fun n => n.entries.any isWild)).length ≤ 1 ∧
+        ∀ n ∈ nodes, n.entries.any isWild = false →
+          secAny loc (nsE name) n = false ∧ secAny loc (stE name) n = false) := by
+    intro loc
+    simp only [Bool.or_eq_true] at hcls
+    rcases hcls with (h1 | h2) | h3
+    · right; right
+      refine ⟨by simpa [wildOneNode] using h1, ?_⟩
+      intro n hn hany
+      rw [List.any_eq_false] at hany
+      constructor
+      · apply secAny_eq_false; intro e he _ hf; exact hany e he (nsE_wild name e hf).1
+      · apply secAny_eq_false; intro e he _ hf; exact hany e he (stE_wild name e hf).1
+    · left
+      exact kill loc _ _ nodes h2 (fun e h => (nsE_wild name e h).1) (fun e _ hf hc => by
+        have := (nsE_wild name e hf).2
+        simp [this] at hc)
+    · right; left
+      exact kill loc _ _ nodes h3 (fun e h => (stE_wild name e h).1) (fun e _ hf hc => by
+        have := (stE_wild name e hf).2
+        simp [this] at hc)
+  have hnone : lastSome i (nodes.map (fun _ => (none : Option Section))) = none := lastSome_none _ _ (by simp)
+  simp only [Bool.or_eq_true] at hsec
+  rcases hsec with hg | hl
+  · have k1 := kill true (nsE name) _ nodes hg (fun e h => (nsE_wild name e h).1)
+      (fun e hl _ hc => by simp [hl] at hc)
+    have k2 := kill true (stE name) _ nodes hg (fun e h => (stE_wild name e h).1)
+      (fun e hl _ hc => by simp [hl] at hc)
+    have e1 : nodes.map (fun n => opt2 (secAny false (nsE name) n) (secAny true (nsE name) n)) =
+        nodes.map (fun n => opt1 .global (secAny false (nsE name) n)) :=
+      List.map_congr_left (fun n hn => by simp [opt1, opt2, k1 n hn])
+    have e2 : nodes.map (fun n => opt2 (secAny false (stE name) n) (secAny true (stE name) n)) =
+        nodes.map (fun n => opt1 .global (secAny false (stE name) n)) :=
+      List.map_congr_left (fun n hn => by simp [opt1, opt2, k2 n hn])
+    have e3 : nodes.map (fun n => opt1 .loc (secAny true (nsE name) n || secAny true (stE name) n)) =
+        nodes.map (fun _ => none) :=
+      List.map_congr_left (fun n hn => by simp [opt1, k1 n hn, k2 n hn])
+    rw [e1, e2, e3, hnone, Option.or_none]
+    exact glob_phase_one_section .global _ _ _ nodes i (hc false)
+  · have k1 := kill false (nsE name) _ nodes hl (fun e h => (nsE_wild name e h).1)
+      (fun e hl _ hc => by simp [hl] at hc)
+    have k2 := kill false (stE name) _ nodes hl (fun e h => (stE_wild name e h).1)
+      (fun e hl _ hc => by simp [hl] at hc)
+    have e1 : nodes.map (fun n => opt2 (secAny false (nsE name) n) (secAny true (nsE name) n)) =
+        nodes.map (fun n => opt1 .loc (secAny true (nsE name) n)) :=
+      List.map_congr_left (fun n hn => by simp [opt1, opt2, k1 n hn])
+    have e2 : nodes.map (fun n => opt2 (secAny false (stE name) n) (secAny true (stE name) n)) =
+        nodes.map (fun n => opt1 .loc (secAny true (stE name) n)) :=
+      List.map_congr_left (fun n hn => by simp [opt1, opt2, k2 n hn])
+    have e3 : nodes.map (fun n => opt1 .global (secAny false (nsE name) n || secAny false (stE name) n)) =
+        nodes.map (fun _ => none) :=
+      List.map_congr_left (fun n hn => by simp [opt1, k1 n hn, k2 n hn])
+    rw [e1, e2, e3, hnone, Option.none_or]
+    exact glob_phase_one_section .loc _ _ _ nodes i (hc true)
+
+theorem lastHit_base (f : VersionBody → Option Section) (vs : List Version) (h : f ({} : Version).body = none) :
+    lastHit f 0 ({} :: vs) = lastHit f 1 vs := by
+  simp only [lastHit, h]
+  cases lastHit f 1 vs <;> rfl
+
+theorem wild_eq (dem : Bytes → Bytes) (nodes : List Node) (hN : ∀ n ∈ nodes, NodeOK n) (name : Bytes) :
+    findMatch dem ({} :: nodes.map verD) name =
+      (firstSome 1 (nodes.map (fun n => opt2 (secAny false (litE name) n) (secAny true (litE name) n)))).or
+      ((lastSome 1 (nodes.map (fun n => opt2 (secAny false (nsE name) n) (secAny true (nsE name) n)))).or
+      ((lastSome 1 (nodes.map (fun n => opt2 (secAny false (stE name) n) (secAny true (stE name) n)))).or
+       (lastSome 1 (nodes.map (fun n => opt2 (secAny false starE n) (secAny true starE n)))))) := by
+  unfold findMatch
+  simp only [Option.orElse_eq_orElse, Option.orElse_eq_or]
+  have b1 : firstHit (fun b => exactIn dem b name) 0 ({} :: nodes.map verD) =
+      firstHit (fun b => exactIn dem b name) 1 (nodes.map verD) := rfl
+  rw [b1, lastHit_base _ _ rfl, lastHit_base _ _ rfl, lastHit_base _ _ rfl,
+    firstHit_map _ _ nodes 1 (fun n hn => exactIn_node dem n (hN n hn) name),
+    lastHit_map _ _ nodes 1 (fun n hn => globIn_ns_node dem n (hN n hn) name),
+    lastHit_map _ _ nodes 1 (fun n hn => globIn_st_node dem n (hN n hn) name),
+    lastHit_map _ _ nodes 1 (fun n hn => allIn_node n (hN n hn))]
+
+
+theorem gnu_eq (dem : Bytes → Bytes) (nodes : List Node) (hN : ∀ n ∈ nodes, NodeOK n) (name : Bytes) :
+    gnuFindIdx dem nodes name =
+      (firstSome 1 (nodes.map (fun n => opt2 (secAny false (litE name) n) (secAny true (litE name) n)))).or
+      ((lastSome 1 (nodes.map (fun n => opt1 .global (secAny false (nsE name) n || secAny false (stE name) n)))).or
+      ((lastSome 1 (nodes.map (fun n => opt1 .loc (secAny true (nsE name) n || secAny true (stE name) n)))).or
+      ((lastSome 1 (nodes.map (fun n => opt1 .global (secAny false starE n)))).or
+       (lastSome 1 (nodes.map (fun n => opt1 .loc (secAny true starE n))))))) := by
+  rw [gnuFindIdx_eq]
+  simp only [List.map_map]
+  have e0 : nodes.map (gEx dem name ∘ toSpecNode) =
+      nodes.map (fun n => opt2 (secAny false (litE name) n) (secAny true (litE name) n)) :=
+    List.map_congr_left (fun n hn => by
+      simp only [Function.comp, gEx, gnu_lit_g dem n (hN n hn), gnu_lit_l dem n (hN n hn)])
+  have e1 : nodes.map (opt1 .global ∘ (fun t => wildMatch wmModel dem t.globals name) ∘ toSpecNode) =
+      nodes.map (fun n => opt1 .global (secAny false (nsE name) n || secAny false (stE name) n)) :=
+    List.map_congr_left (fun n hn => by
+      simp only [Function.comp, gnu_wild_g dem n (hN n hn), wild_split false n (hN n hn)])
+  have e2 : nodes.map (opt1 .loc ∘ (fun t => wildMatch wmModel dem t.locals name) ∘ toSpecNode) =
+      nodes.map (fun n => opt1 .loc (secAny true (nsE name) n || secAny true (stE name) n)) :=
+    List.map_congr_left (fun n hn => by
+      simp only [Function.comp, gnu_wild_l dem n (hN n hn), wild_split true n (hN n hn)])
+  have e3 : nodes.map (opt1 .global ∘ (fun t => starMatch t.globals) ∘ toSpecNode) =
+      nodes.map (fun n => opt1 .global (secAny false starE n)) :=
+    List.map_congr_left (fun n _ => by simp only [Function.comp, gnu_star_g])
+  have e4 : nodes.map (opt1 .loc ∘ (fun t => starMatch t.locals) ∘ toSpecNode) =
+      nodes.map (fun n => opt1 .loc (secAny true starE n)) :=
+    List.map_congr_left (fun n _ => by simp only [Function.comp, gnu_star_l])
+  rw [e0, e1, e2, e3, e4]
+
+/-- **C32, partial**: on the decidable class `GnuAgree`, wild's `find_match` is GNU ld's choice
+for every symbol name (and every demangler: the class has no `extern "C++"` entries). -/
+theorem find_match_spec_partial (dem : Bytes → Bytes) (nodes : List Node) (name : Bytes)
+    (hc : GnuAgree nodes = true) (hacc : ∃ vs, build false nodes = .ok (.regular vs)) :
+    modelFind dem nodes name = gnuFindIdx dem nodes name := by
+  obtain ⟨vs, hvs⟩ := hacc
+  obtain ⟨hv, hok⟩ := build_ok nodes vs hvs
+  simp only [GnuAgree, Bool.and_eq_true] at hc
+  obtain ⟨⟨⟨hent, hsec⟩, hcls⟩, hstar⟩ := hc
+  have hN : ∀ n ∈ nodes, NodeOK n := fun n hn e he =>
+    ⟨List.all_eq_true.mp (List.all_eq_true.mp hent n hn) e he, hok n hn e he⟩
+  have hm : modelFind dem nodes name = findMatch dem ({} :: nodes.map verD) name := by
+    unfold modelFind; rw [hvs, hv]
+  rw [hm, wild_eq dem nodes hN, gnu_eq dem nodes hN]
+  rw [← Option.or_assoc (o₁ := lastSome 1 (nodes.map (fun n => opt2 (secAny false (nsE name) n) (secAny true (nsE name) n)))),
+    glob_phase nodes name 1 hsec hcls, all_phase _ _ nodes 1 hstar, Option.or_assoc]
+
+/-! ### The class in words: `starOK`, and wild's `*` class = "has an unescaped `*`" -/
+
+theorem any_or_false {α : Type} (l : List α) (f g : α → Bool) (h : l.any (fun x => f x || g x) = false) :
+    l.any f = false ∧ l.any g = false := by
+  rw [any_or_distrib] at h
+  simpa using h
+
+/-- `starOK` in words: no element has a global `*`, or the last element with any `*` has a global `*`. -/
+theorem starOK_iff {α : Type} (ag al : α → Bool) (l : List α) :
+    starOK ag al l = true ↔
+      (l.any ag = false ∨ ∃ pre a post, l = pre ++ a :: post ∧ ag a = true ∧
+        post.any (fun x => ag x || al x) = false) := by
+  induction l with
+  | nil => simp [starOK]
+  | cons a r ih =>
+    simp only [starOK, Bool.and_eq_true, Bool.or_eq_true, Bool.not_eq_true']
+    constructor
+    · rintro ⟨hr, hc⟩
+      rcases ih.mp hr with h0 | ⟨pre, x, post, rfl, hx, hp⟩
+      · rcases hc with (h1 | h1) | h1
+        · rw [h0] at h1; cases h1
+        · left; simp [h0, h1]
+        · cases ha : ag a
+          · left; simp [h0, ha]
+          · right
+            refine ⟨[], a, r, rfl, ha, ?_⟩
+            rw [any_or_distrib, h0, h1]; rfl
+      · right; exact ⟨a :: pre, x, post, rfl, hx, hp⟩
+    · rintro (h0 | ⟨pre, x, post, hl, hx, hp⟩)
+      · simp only [List.any_cons, Bool.or_eq_false_iff] at h0
+        exact ⟨ih.mpr (Or.inl h0.2), Or.inl (Or.inr h0.1)⟩
+      · cases pre with
+        | nil =>
+          simp only [List.nil_append, List.cons.injEq] at hl
+          obtain ⟨rfl, rfl⟩ := hl
+          obtain ⟨h1, h2⟩ := any_or_false _ _ _ hp
+          exact ⟨ih.mpr (Or.inl h1), Or.inr h2⟩
+        | cons p pre =>
+          simp only [List.cons_append, List.cons.injEq] at hl
+          obtain ⟨rfl, rfl⟩ := hl
+          refine ⟨ih.mpr (Or.inr ⟨pre, x, post, rfl, hx, hp⟩), Or.inl (Or.inl ?_)⟩
+          simp [hx]
+
+/-- A token has an unescaped `*` (what wild's `analyze_glob_pattern` looks for first). -/
+def hasUnescapedStar : List UInt8 → Bool
+  | [] => false
+  | c :: rest =>
+    if c == bBackslash then
+      match rest with
+      | [] => false
+      | _ :: rest' => hasUnescapedStar rest'
+    else c == bStar || hasUnescapedStar rest
+
+theorem hasUnescapedStar_cons (c : UInt8) (rest : List UInt8) (h : ¬(c == bBackslash) = true) :
+    hasUnescapedStar (c :: rest) = (c == bStar || hasUnescapedStar rest) := by
+  conv => lhs; unfold hasUnescapedStar
+  simp [h]
+
+theorem analyzeLoop_star_iff (t : PatternType) (p : List UInt8) (ht : t ≠ .star) :
+    analyzeLoop t p = .star ↔ hasUnescapedStar p = true := by
+  fun_induction analyzeLoop t p with
+  | case1 t => simp [hasUnescapedStar, ht]
+  | case2 t c hc t' =>
+    simp only [hasUnescapedStar, hc, if_true, Bool.false_eq_true, iff_false]
+    by_cases h : t = .exact <;> simp +zetaDelta [h, ht]
+  | case3 t c hc t' x rest' ih =>
+    have ht' : t' ≠ .star := by
+      by_cases h : t = .exact <;> simp +zetaDelta [h, ht]
+    rw [ih ht']
+    simp only [hasUnescapedStar, hc, if_true]
+  | case4 t c rest h1 h2 =>
+    simp [hasUnescapedStar_cons c rest h1, h2]
+  | case5 t c rest h1 h2 h3 ih =>
+    rw [ih (by simp), hasUnescapedStar_cons c rest h1]
+    simp [h2]
+  | case6 t c rest h1 h2 h3 ih =>
+    rw [ih ht, hasUnescapedStar_cons c rest h1]
+    simp [h2]
+
+/-- wild's `*` class, syntactically: the token has an unescaped `*`. -/
+theorem analyze_star_iff (p : List UInt8) : analyze p = .star ↔ hasUnescapedStar p = true := by
+  rw [analyze_eq, analyzeLoop_star_iff _ _ (by simp)]
+
+/-- For a token GNU ld reads as a wildcard, wild's `*`-free class is: no unescaped `*`. -/
+theorem analyze_nonStar_iff (p : List UInt8) (h : realsymbol p = none) :
+    analyze p = .nonStar ↔ hasUnescapedStar p = false := by
+  rcases realsymbol_none_analyze p h with ha | ha
+  · simp [ha, (analyze_star_iff p).mp ha]
+  · constructor
+    · intro _
+      cases hs : hasUnescapedStar p
+      · rfl
+      · rw [(analyze_star_iff p).mpr hs] at ha; cases ha
+    · intro _; exact ha
+
+
+theorem isWild_realsymbol (e : Entry) (h : isWild e = true) : realsymbol e.token = none := by
+  simp only [isWild, toPat, Pat.literal, Bool.and_eq_true, Option.isNone_iff_eq_none] at h
+  have h1 := h.1
+  by_cases hq : e.quoted = true
+  · simp [hq] at h1
+  · simpa [hq] using h1
+
+theorem wildAll_star_syntactic (nodes : List Node) :
+    wildAll (fun e => analyze e.token == .star) nodes = wildAll (fun e => hasUnescapedStar e.token) nodes := by
+  have : ∀ e : Entry, (!isWild e || analyze e.token == .star) = (!isWild e || hasUnescapedStar e.token) := by
+    intro e
+    cases hw : isWild e with
+    | false => rfl
+    | true =>
+      simp only [Bool.not_true, Bool.false_or]
+      rw [Bool.eq_iff_iff]
+      simpa using analyze_star_iff e.token
+  simp only [wildAll, this]
+
+theorem wildAll_nonStar_syntactic (nodes : List Node) :
+    wildAll (fun e => analyze e.token == .nonStar) nodes = wildAll (fun e => !hasUnescapedStar e.token) nodes := by
+  have : ∀ e : Entry, (!isWild e || analyze e.token == .nonStar) = (!isWild e || !hasUnescapedStar e.token) := by
+    intro e
+    cases hw : isWild e with
+    | false => rfl
+    | true =>
+      simp only [Bool.not_true, Bool.false_or]
+      rw [Bool.eq_iff_iff]
+      simpa using analyze_nonStar_iff e.token (isWild_realsymbol e hw)
+  simp only [wildAll, this]
+
+/-- `GnuAgree` without reference to wild's `analyze`: the `*` class is "has an unescaped `*`". -/
+def GnuAgreeSyn (nodes : List Node) : Bool :=
+  nodes.all (fun n => n.entries.all EntryOK) &&
+  (wildAll (fun e => !e.isLocal) nodes || wildAll (fun e => e.isLocal) nodes) &&
+  (wildOneNode nodes || wildAll (fun e => hasUnescapedStar e.token) nodes ||
+    wildAll (fun e => !hasUnescapedStar e.token) nodes) &&
+  starOK (secAny false starE) (secAny true starE) nodes
+
+theorem GnuAgree_syntactic (nodes : List Node) : GnuAgree nodes = GnuAgreeSyn nodes := by
+  unfold GnuAgree GnuAgreeSyn
+  rw [wildAll_star_syntactic, wildAll_nonStar_syntactic]
+
+/-- `find_match_spec_partial` with the class stated without wild's `analyze`. -/
+theorem find_match_spec_partial_syn (dem : Bytes → Bytes) (nodes : List Node) (name : Bytes)
+    (hc : GnuAgreeSyn nodes = true) (hacc : ∃ vs, build false nodes = .ok (.regular vs)) :
+    modelFind dem nodes name = gnuFindIdx dem nodes name :=
+  find_match_spec_partial dem nodes name (by rw [GnuAgree_syntactic]; exact hc) hacc
+
+/-! ### The class is inhabited by realistic scripts, and excludes the witnesses -/
+
+def qent (loc : Bool) (s : String) : Entry := { isLocal := loc, isCxx := false, quoted := true, token := b s }
+
+/-- `V1 { global: foo; bar*; local: *; }; V2 { global: baz*; } V1;` -/
+example : GnuAgree [{ name := b "V1", parent := none, entries := [ent false "foo", ent false "bar*", ent true "*"] },
+                    { name := b "V2", parent := some 1, entries := [ent false "baz*"] }] = true := by decide
+
+example : ∃ vs, build false [{ name := b "V1", parent := none, entries := [ent false "foo", ent false "bar*", ent true "*"] },
+                    { name := b "V2", parent := some 1, entries := [ent false "baz*"] }] = .ok (.regular vs) := ⟨_, rfl⟩
+
+example : GnuAgreeSyn [{ name := b "V1", parent := none, entries := [ent false "foo", ent false "bar*", ent true "*"] },
+                    { name := b "V2", parent := some 1, entries := [ent false "baz*"] }] = true := by decide
+
+/-- `V1 { global: a_?; a_[xy]*; "quoted*"; esc\*aped; local: *; };` (both wildcard classes, one node). -/
+example : GnuAgree [{ name := b "V1", parent := none, entries :=
+    [ent false "a_?", ent false "a_[xy]*", qent false "quoted*", ent false "esc\\*aped", ent true "*"] }] = true := by decide
+
+/-- `V1 { global: f1; local: _Z*; _priv_?; }; V2 { global: f2; *; };` (local wildcards of both classes in
+one node; the last node with a `*` has it in `global:`). -/
+example : GnuAgree [{ name := b "V1", parent := none, entries := [ent false "f1", ent true "_Z*", ent true "_priv_?"] },
+                    { name := b "V2", parent := none, entries := [ent false "f2", ent false "*"] }] = true := by decide
+
+/-- The two witness scripts are outside the class. -/
+example : GnuAgree [{ name := b "V1", parent := none, entries := [ent false "f*"] },
+                    { name := b "V2", parent := none, entries := [ent true "fo*"] }] = false := by decide
+example : GnuAgree [{ name := b "V1", parent := none, entries := [ent false "f?o"] },
+                    { name := b "V2", parent := none, entries := [ent false "f*"] }] = false := by decide
+/-- `a]b` (wild: wildcard, GNU: literal) and a global `*` followed by a later local `*` are excluded. -/
+example : GnuAgree [{ name := b "V1", parent := none, entries := [ent false "a]b"] }] = false := by decide
+example : GnuAgree [{ name := b "V1", parent := none, entries := [ent false "*"] },
+                    { name := b "V2", parent := none, entries := [ent true "*"] }] = false := by decide
+
+
 end Wild.C32
